@@ -149,6 +149,7 @@ def run(ctx, rep):
     rep.floor("bit-sequence sites on the encode path", nb, 3)
     selectors_agree(ctx, rep)
     g1justify(ctx, rep)
+    cursor(ctx, rep)
 
 
 def selectors_agree(ctx, rep):
@@ -201,3 +202,21 @@ def g1justify(ctx, rep, only_class=None, floor=10):
     ctl = [o for o in rep.obls if o.control and o.rule == "G1JUSTIFY"]
     rep.control("G1JUSTIFY", "g1_unjustified_bad", any(o.status == VIOLATION for o in ctl),
                 "a /4 guard in front of 2-byte items must be reported")
+
+
+def cursor(ctx, rep):
+    """CURSOR over everything reachable from the encode and decode entry points."""
+    from ..cursor import run_cursor
+    F = ctx.F
+    rep.rules_text.append(
+        "CURSOR: in every function reachable from the encode/decode entry points, a loop-carried cursor that "
+        "indexes a container inside a loop advances on every path back to the loop header (a stalled cursor "
+        "pairs later items with an earlier item's data on one side of the codec only)")
+    scope = set(ctx.reach("encode")) | set(ctx.reach("decode"))
+    fns = [F.fns[k] for k in sorted(scope) if k in F.fns and "/draco/" in F.fns[k].file]
+    fns += [fn for fn in F.fns.values() if fn.name.startswith("verif_control::c10_cursor")]
+    n_real, n_nt, ctl = run_cursor(rep, fns)
+    rep.floor("CURSOR: loop-carried index uses on the codec paths", n_real, 250)
+    rep.floor("CURSOR: of which not plain induction variables", n_nt, 20)
+    rep.control("CURSOR", "c10_cursor_bad", ctl.get("c10_cursor_bad") is False, "stalling cursor must be reported")
+    rep.control("CURSOR", "c10_cursor_ok (negative)", ctl.get("c10_cursor_ok") is True, "must be discharged")
